@@ -32,7 +32,7 @@ vars == <<l, ri, acc, nbad, hits>>
 
 Bad(e, clause) == PrintT(<<"BAD", l, e.run, e.ev, clause>>)
 
-HitNames == {"Fit", "Labels", "Argmax", "ArgmaxDecidedRows", "Unscorable",
+HitNames == {"Fit", "Labels", "Argmax", "ArgmaxDecidedRows", "Unscorable", "LongBatch", "LongTraining",
              "Stationary", "StationarySharp", "StationaryLoose", "GradUnscorable", "Alpha0",
              "Objective", "ObjectiveSharp", "ObjUnscorable"}
 Add(h, name, d) == [h EXCEPT ![name] = @ + d]
@@ -73,8 +73,10 @@ EvHead ==
         /\ nbad' = nbad + Cardinality(fs)
         /\ IF Judged(e) /\ Scorable(e)
            THEN /\ ri' = 1 /\ acc' = AccInit(e) /\ l' = l
-                /\ hits' = Add(Add(Add(Add(hits, "Fit", 1), "Labels", 1), "Argmax", 1),
-                               "ArgmaxDecidedRows", ArgmaxDecided(e))
+                /\ hits' = Add(Add(Add(Add(Add(Add(hits, "Fit", 1), "Labels", 1), "Argmax", 1),
+                               "ArgmaxDecidedRows", ArgmaxDecided(e)),
+                               "LongBatch", IF Len(e.Q) > 256 THEN 1 ELSE 0),
+                               "LongTraining", IF e.n > 128 THEN 1 ELSE 0)
            ELSE /\ ri' = 0 /\ acc' = NoAcc /\ l' = l + 1
                 /\ hits' = IF Judged(e) THEN Add(Add(Add(hits, "Fit", 1), "Labels", 1), "Unscorable", 1)
                            ELSE hits
